@@ -5,6 +5,7 @@ import (
 	"errors"
 	"fmt"
 	"os"
+	"strings"
 
 	"github.com/specterops/dawgs/cypher/frontend"
 	"github.com/specterops/dawgs/cypher/models/pgsql/translate"
@@ -120,6 +121,7 @@ func Replay(run *core.Run, backend *SQLBackend) {
 	fmt.Println("query: ", art.Query)
 	fmt.Println("graph: ", string(gj))
 	q := Query{Text: art.Query, Params: params, Source: "replay"}
+	gm.SortLists = strings.Contains(strings.ToLower(art.Query), "collect(")
 	violations := replayOne(run, backend, q, art.Graph, art.Config)
 	if violations == 0 {
 		fmt.Println("replay: no violation")
